@@ -548,6 +548,8 @@ class TransferManager(BaseManager):
 
         # Downloads will just get remotely queued
         for download in downloads:
+            if download._remotely_queue_task is not None and not download._remotely_queue_task.done():
+                continue
             download._remotely_queue_task = asyncio.create_task(
                 self._queue_remotely(download),
                 name=f'queue-remotely-{task_counter()}'
@@ -558,6 +560,8 @@ class TransferManager(BaseManager):
 
         # Uploads should be initialized and uploaded if possible
         for upload in uploads[:free_upload_slots]:
+            if upload._transfer_task is not None and not upload._transfer_task.done():
+                continue
             upload._transfer_task = asyncio.create_task(
                 self._initialize_upload(upload),
                 name=f'initialize-upload-{task_counter()}'
@@ -1437,6 +1441,8 @@ class TransferManager(BaseManager):
                     if current_state == TransferState.FAILED:
                         await transfer.state.queue(remotely=True)
 
+                    if transfer._transfer_task is not None and not transfer._transfer_task.done():
+                        return
                     transfer._transfer_task = asyncio.create_task(
                         self._initialize_download(transfer, connection, message),
                         name=f'initialize-download-{task_counter()}'
